@@ -184,7 +184,7 @@ func runK19(r *rng, n int) {
 				cnt = uint32(maxEntry)
 			}
 		}
-		var got []string
+		var got, got2 []string
 		var pages int
 		var qidBad []string
 		var lerr error
@@ -198,6 +198,8 @@ func runK19(r *rng, n int) {
 				lerr = oerr
 			} else {
 				got, pages, qidBad, lerr = listPaged(dir, root, cnt, nent+5)
+				// a second pass from the start through the same open fid (rewinddir)
+				got2, _, _, _ = listPaged(dir, root, cnt, nent+5)
 			}
 			dir.Close()
 			root.Close()
@@ -219,6 +221,7 @@ func runK19(r *rng, n int) {
 				lerr = oerr
 			} else {
 				got, pages, qidBad, lerr = listPaged(dir, root, cnt, nent+5)
+				got2, _, _, _ = listPaged(dir, root, cnt, nent+5)
 			}
 			dir.Close()
 			root.Close()
@@ -234,6 +237,12 @@ func runK19(r *rng, n int) {
 		if len(qidBad) > 0 {
 			qidok = 0
 		}
+		again := 0
+		if m2, d2 := judgeListing(got2, want); lerr == nil && m2 == 0 && d2 == 0 && len(got2) == len(want) {
+			again = 1
+		} else if lerr != nil {
+			again = complete // not judged when the first pass failed
+		}
 		extra := ""
 		if lerr != nil {
 			extra = fmt.Sprintf(" err=%q", lerr.Error())
@@ -242,7 +251,7 @@ func runK19(r *rng, n int) {
 			extra += " qidbad=" + strings.ReplaceAll(qidBad[0], " ", "_")
 		}
 		count("fs:" + fsKind + ":" + via)
-		emit("k19 fs=%s via=%s n=%d count=%d msize=%d namelens=%s => complete=%d missing=%d dup=%d qidok=%d pages=%d%s",
-			fsKind, via, nent, cnt, msize, strings.Join(lens, ","), complete, missing, dup, qidok, pages, extra)
+		emit("k19 fs=%s via=%s n=%d count=%d msize=%d namelens=%s => complete=%d missing=%d dup=%d qidok=%d pages=%d again=%d%s",
+			fsKind, via, nent, cnt, msize, strings.Join(lens, ","), complete, missing, dup, qidok, pages, again, extra)
 	}
 }
